@@ -23,6 +23,7 @@ class Run:
         s.extra = {}
         s._progs = {}; s._native = {}
         s.kani = []                  # kani harness results
+        s.xcheck = {'checked': 0, 'agree': 0, 'unknown': 0, 'disagree': []}
         s.engine_names = set()
     # ---- resources
     def program(s, features=()):
@@ -50,6 +51,10 @@ class Run:
         s.mismatches.extend(summ.get('mismatches', []))
         for u in summ.get('inconclusive', []): s.note_inconclusive(u)
         for k, v in summ.get('vacuity', {}).items(): s.vacuity[k] = s.vacuity.get(k, False) or v
+        xc = summ.get('xcheck')
+        if xc:
+            for k in ('checked', 'agree', 'unknown'): s.xcheck[k] += xc[k]
+            s.xcheck['disagree'] += xc['disagree'][:3]
     def note_inconclusive(s, text):
         if text not in s.inconclusive: s.inconclusive.append(text)
     def sample(s, x):
@@ -103,6 +108,7 @@ class Run:
         if s.mismatches: s.note_inconclusive(f'{len(s.mismatches)} engine/native mismatches (encoding suspect; not reported as violations)')
         for k, v in s.vacuity.items():
             if not v: s.note_inconclusive(f'vacuity witness not reached: {k}')
+        if s.xcheck['disagree']: s.note_inconclusive(f"second solver (cvc5) disagrees with z3 on {len(s.xcheck['disagree'])} sampled queries, e.g. {json.dumps(s.xcheck['disagree'][0])[:300]}")
         for t in s.inconclusive: print(f'INCONCLUSIVE: {t}')
         for k in s.known: print(f"KNOWN-FINDING: property={s.pid} {k['key']} {k['what']} witness={json.dumps(k.get('witness'), default=str)[:200]}")
         vio_paths = []
@@ -131,6 +137,7 @@ class Run:
             'solver_s': round(s.solver_s, 2), 'vacuity_witnesses': s.vacuity,
             'inconclusive': bool(s.inconclusive), 'inconclusive_notes': s.inconclusive[:30],
             'known_findings_seen': s.known, 'kani': s.kani,
+            'second_solver': {'solver': 'cvc5 1.0.3', 'sampled_queries_rechecked': s.xcheck['checked'], 'agree': s.xcheck['agree'], 'inconclusive_in_cvc5': s.xcheck['unknown'], 'disagree': len(s.xcheck['disagree'])},
             'exhaustive': False,
         }
         cov.update(s.extra)
